@@ -94,3 +94,14 @@ for p in list(NOT_APPLICABLE):
         del NOT_APPLICABLE[p]
 for e in ENGINES:
     e['serves_properties'] = sorted(CHECKS)
+
+_c('C04', 'model_checking',
+   'exhaustive history enumeration (all packet sequences up to a depth) executed on the real servers in a virtual world, against a dispatcher reference',
+   'Every POST body of up to 2 packets (thorough 3; quick adds a complete seed-chosen depth-3 slice) over a 13-symbol packet alphabet covering all ten type digits, text/JSON/base64 payloads and a malformed packet, and every sequence of up to 2 (3) WebSocket frames over that alphabet plus raw binary, empty and invalid-base64 frames, is executed on polling, WebSocket-only and upgraded sessions of both servers in both handler dispatch modes; message events, status, session fate, NOOP answers and the re-armed PING instant are compared with the reference dispatcher.',
+   'Default schedule only; each history is one execution of the real code (no separate model), so traces_validated equals histories.',
+   'DESIGN.md 5 C04')
+for p in list(NOT_APPLICABLE):
+    if p in CHECKS:
+        del NOT_APPLICABLE[p]
+for e in ENGINES:
+    e['serves_properties'] = sorted(CHECKS)
